@@ -279,7 +279,7 @@ IPC_RULE = ('one evaluation = one seeded (scripts, schedule, faults) triple in o
 
 def _ipc(extra_parties, nontrivial, **kw):
     d = {
-        'parts': [{'harness': 'ipc_sim', 'chunk': 40}], 'quick_s': 45, 'thorough_s': 900,
+        'parts': [{'harness': 'ipc_sim', 'chunk': 40}], 'quick_s': 60, 'thorough_s': 900,
         'level_quick': 'exploration', 'level_thorough': 'exploration',
         'rule': IPC_RULE % (extra_parties, nontrivial),
         'real': REAL_IPC, 'stub': STUB_IPC,
